@@ -28,7 +28,10 @@ Lemma obj_of_set_avail c x av n p : obj_of c (set_avail x av n) p <-> obj_of c x
 Proof. unfold obj_of, sl_addr, sl_item, set_avail. cbn. tauto. Qed.
 
 Lemma slab_ok_mono c k k' lv x : k <= k' -> slab_ok c k lv x -> slab_ok c k' lv x.
-Proof. intros Hk [? ? ? ? ? ? ? ?]. constructor; auto. lia. Qed.
+Proof. intros Hk [? ? ? ? ? ? ? ?]. constructor; auto. Qed.
+
+Lemma slab_ok_any c k k' lv x : slab_ok c k lv x -> slab_ok c k' lv x.
+Proof. intros [? ? ? ? ? ? ? ?]. constructor; auto. Qed.
 
 Lemma slab_ok_lv c k lv lv' x :
   (forall a, In a (sl_avail x) -> ~ In a lv -> ~ In a lv') -> slab_ok c k lv x -> slab_ok c k lv' x.
@@ -39,6 +42,11 @@ Qed.
 Lemma Inv_mono c k k' s : k <= k' -> Inv c k s -> Inv c k' s.
 Proof.
   intros Hk [? ? S ? ? ? ? ? ? ? ? ?]. constructor; auto. intros x Hx. eapply slab_ok_mono; eauto.
+Qed.
+
+Lemma Inv_any c k k' s : Inv c k s -> Inv c k' s.
+Proof.
+  intros [? ? S ? ? ? ? ? ? ? ? ?]. constructor; auto. intros x Hx. eapply slab_ok_any; eauto.
 Qed.
 
 Lemma rdisj_spec a b : rdisj a b = true <-> fst a + snd a <= fst b \/ fst b + snd b <= fst a.
@@ -54,13 +62,18 @@ Lemma bucket_hand_out c s o n' nreq idx i : bucket (fst (hand_out c s o n' nreq 
 Proof. reflexivity. Qed.
 
 (* ---------- counting helpers (page accounting, footprint) ---------- *)
+Lemma obj_list_len c x l : NoDup l -> (forall a, In a l -> obj_of c x a) -> N.of_nat (length l) <= nobj c (sl_item x).
+Proof.
+  intros Hnd Hobj.
+  assert (Hincl : incl l (objs_up (sl_addr c x) (sl_item x) (N.to_nat (nobj c (sl_item x))))).
+  { intros a Ha. destruct (Hobj a Ha) as (i & Hi & ->).
+    apply in_objs_up. exists (N.to_nat i). split; [lia|]. rewrite N2Nat.id. reflexivity. }
+  pose proof (NoDup_incl_length Hnd Hincl) as L. rewrite length_objs_up in L. lia.
+Qed.
+
 Lemma avail_len_le c k lv x : slab_ok c k lv x -> N.of_nat (length (sl_avail x)) <= nobj c (sl_item x).
 Proof.
-  intros S.
-  assert (Hincl : incl (sl_avail x) (objs_up (sl_addr c x) (sl_item x) (N.to_nat (nobj c (sl_item x))))).
-  { intros a Ha. destruct (so_avail _ _ _ _ S a Ha) as [(i & Hi & ->) _].
-    apply in_objs_up. exists (N.to_nat i). split; [lia|]. rewrite N2Nat.id. reflexivity. }
-  pose proof (NoDup_incl_length (so_nodup _ _ _ _ S) Hincl) as L. rewrite length_objs_up in L. lia.
+  intros S. apply obj_list_len; [apply (so_nodup _ _ _ _ S)|]. intros a Ha. apply (so_avail _ _ _ _ S a Ha).
 Qed.
 
 Lemma cfree_le c k lv l i :
@@ -95,7 +108,6 @@ Variable c : cfg.
 Hypothesis F : cfg_facts c.
 Variables (k : N) (s : state).
 Hypothesis I : Inv c k s.
-Hypothesis Hk : k + 1 < 4294967296.
 Variables (idx h : N) (t : list N).
 Hypothesis Hidx : idx < nbuckets c.
 Hypothesis Hb : bucket s idx = h :: t.
@@ -157,7 +169,9 @@ Proof.
     - intros a Ha'. cbn in Ha'. assert (In a (sl_avail x)) as Hax by (rewrite Ha; right; assumption).
       destruct (s7 a Hax) as [O1 O2]. split; [apply obj_of_set_avail; assumption|].
       intros [<-|Hl]; [inversion Hnd_av; contradiction|contradiction].
-    - cbn. unfold wrap32. rewrite N.mod_small by lia. lia. }
+    - unfold x', set_avail, sl_item. cbn [sl_nres sl_avail sl_idx].
+      rewrite Ha in s8. cbn [length] in s8. pose proof (nobj_lt32 c (sl_idx x) F) as B32. unfold sl_item in *.
+      unfold wrap32. rewrite N.mod_small by lia. lia. }
   constructor; cbn [slabs larges partial live used nlive peak pop_state].
   - destruct av; [rewrite upd_nth_length|]; apply (I_len _ _ _ I).
   - rewrite map_upd_slab_const; [apply (I_frames _ _ _ I)|]. intros z _ Hz. cbn. congruence.
@@ -381,8 +395,10 @@ Proof.
   { intros f rg Hf ->. destruct (frame_in_region c F k s I fr rg Hf) as (L1 & L2 & _).
     assert (In rg (mapped s)) as Hm by (apply (mapped_frames s); eauto).
     specialize (R2 rg Hm). apply rdisj_spec in R2. cbn in R2. pose proof (cf_slabsz_pos c F). lia. }
+  assert (Hlen0 : N.of_nat (S (length av)) = nobj c item).
+  { pose proof (length_carve base item cnt) as L. rewrite Hc in L. cbn [length] in L. unfold cnt in L. lia. }
   assert (Sx' : slab_ok c (k + 1) (o :: live_ptrs s) x').
-  { constructor; unfold x'; cbn [sl_idx sl_base sl_frame sl_res sl_avail sl_nres]; auto; try lia.
+  { constructor; unfold x', sl_item; cbn [sl_idx sl_base sl_frame sl_res sl_avail sl_nres]; auto; try (fold item; lia).
     - inversion Hnd; assumption.
     - intros a Ha. destruct (Hobj a (or_intror Ha)) as (O & A1 & A2). split; [exact O|].
       intros [<- |Hl]; [inversion Hnd; contradiction|]. apply (Hold_live a A1 A2 Hl). }
@@ -593,7 +609,7 @@ Proof.
     + destruct (alloc_small_pop c F k s I (s2b (norm_req n)) h t Hidx Hb (norm_req n) n e)
         as (x & o & av & Hx & Hf & Hi & Ha & Hst & Hres).
       split.
-      * rewrite Hst. apply (pop_state_inv c F k s I Hk _ h Hidx x o av); auto.
+      * rewrite Hst. apply (pop_state_inv c F k s I _ h Hidx x o av); auto.
       * right. exists o, (b2s (s2b (norm_req n))), (norm_req n). rewrite Hst, Hres. split; reflexivity.
   - specialize (Henv _ eq_refl).
     destruct (N.eq_dec (env_ret e) 0) as [E0|E0].
